@@ -485,7 +485,7 @@ pub fn code_nth(push_state: &mut PushState, _instruction_cache: &InstructionCach
                 item_to_push = code.clone();
             }
             match code {
-                Item::List { items } => {
+                Item::List { items } if idx > 0 => {
                     if let Some(nth_item) = items.get(idx as usize - 1) {
                         item_to_push = nth_item.clone();
                     }
